@@ -6,6 +6,7 @@ package flyt
 
 import (
 	"context"
+	"sync/atomic"
 	"time"
 )
 
@@ -23,11 +24,12 @@ type vCustomErr struct{ code int }
 
 func (e vCustomErr) Error() string { return "vcustom" }
 
-// vCtx is the harness's context implementation: cancellation is synchronous and explicit.
+// vCtx is the harness's context implementation: cancellation is synchronous and explicit. Its state
+// is one atomic word (so that reading it from worker goroutines is race free and a visible
+// operation for the scheduler) plus the done channel.
 type vCtx struct {
 	done chan struct{}
-	err  error
-	flag int32
+	flag int32 // 0 live, 1 cancelled, 2 deadline exceeded
 }
 
 var vErrCanceled error = &vError{id: -1}
@@ -38,16 +40,24 @@ func vNewCtx() *vCtx { return &vCtx{done: make(chan struct{})} }
 func (c *vCtx) Deadline() (time.Time, bool) { return time.Time{}, false }
 func (c *vCtx) Done() <-chan struct{}       { return c.done }
 func (c *vCtx) Value(key any) any           { return nil }
-func (c *vCtx) Err() error                  { return c.err }
+func (c *vCtx) Err() error {
+	switch atomic.LoadInt32(&c.flag) {
+	case 1:
+		return vErrCanceled
+	case 2:
+		return vErrDeadline
+	}
+	return nil
+}
 
 func (c *vCtx) cancel(deadline bool) {
-	if c.err != nil {
+	if atomic.LoadInt32(&c.flag) != 0 {
 		return
 	}
 	if deadline {
-		c.err = vErrDeadline
+		atomic.StoreInt32(&c.flag, 2)
 	} else {
-		c.err = vErrCanceled
+		atomic.StoreInt32(&c.flag, 1)
 	}
 	close(c.done)
 }
